@@ -763,7 +763,9 @@ def main():
                 getattr(clone, method)(*args, **kwargs)
 
             world = mpsim.World(ch, plan, run_worker, {})
-            parent = MultiprocessingSolver(solvers, log_level="ERROR")
+            with mpsim.detached():
+                parent = MultiprocessingSolver(solvers, log_level="ERROR")
+            mpsim.adopt(world, parent)
             with mpsim.patched(world):
                 if op == "find_all":
                     for x in parent.solve():
